@@ -497,6 +497,14 @@ func (e *Engine) NormExpr(x ast.Expr) string {
 	return e.P.normExpr(x)
 }
 
+// normExprElem is normExpr with an element selected from a list standing for "a value of the element type"
+// (tokens[i].Span and tok.Span are the same thing for an argument about every token of the list).
+func (p *Program) normExprElem(x ast.Expr) string {
+	p.normElem = true
+	defer func() { p.normElem = false }()
+	return p.normExpr(x)
+}
+
 func (p *Program) normExpr(x ast.Expr) string {
 	if x == nil {
 		return ""
@@ -514,6 +522,11 @@ func (p *Program) normExpr(x ast.Expr) string {
 		}
 		return v.Name
 	case *ast.SelectorExpr:
+		if ix, ok := ast.Unparen(v.X).(*ast.IndexExpr); ok && p.normElem {
+			if t := info.TypeOf(ix); t != nil {
+				return "$" + unqualified(TypeStr(t)) + "." + selName(v)
+			}
+		}
 		return p.normExpr(v.X) + "." + selName(v)
 	case *ast.IndexExpr:
 		return p.normExpr(v.X) + "[" + p.normExpr(v.Index) + "]"
